@@ -47,7 +47,8 @@ pub fn apply_method(dt: &DateTime, m: usize, c: u32) -> DateTime {
 
 /// count strata; returns (count, stratum name)
 pub fn gen_count(rng: &mut Rng, i: i128, unit: i128, dir: i128) -> (u32, &'static str) {
-    match rng.below(8) {
+    match rng.below(10) {
+        8 | 9 => (crate::model::magic::gen_count(rng, unit), "count/magic-band(2^k-ns/unit, one day wide)"),
         0 => (rng.below(101) as u32, "count/0..100"),
         1 => (u32::MAX - rng.below(3) as u32, "count/u32::MAX-0..2"),
         2 => (((1u64 << 31) as i64 + rng.range_i64(-1, 1)) as u32, "count/2^31±1"),
@@ -93,7 +94,8 @@ fn judge_method(rec: &mut Rec, i: i128, off: i32, m: usize, c: u32, stratum: &'s
 }
 
 fn gen_duration(rng: &mut Rng, i: i128, dir: i128) -> (Duration, &'static str) {
-    match rng.below(8) {
+    match rng.below(10) {
+        8 | 9 => (crate::model::magic::gen_duration(rng), "dur/magic-magnitude"),
         0 => (Duration::new(rng.below(86_400), rng.below(1_000_000_000) as u32), "dur/sub-day"),
         1 => (Duration::new(rng.below(86_400 * 4000), rng.below(1_000_000_000) as u32), "dur/multi-day"),
         2 => (Duration::new(((1u64 << 32) * 86_400).wrapping_add(rng.below(200_000)), rng.below(1_000_000_000) as u32), "dur/2^32-days+eps"),
@@ -280,9 +282,17 @@ pub fn run(ctx: &Ctx) -> PropResult {
         judge_method(rec, i, off, m, c, stratum);
     }));
     wls.push(Workload::cases("datetime_duration_ops", ctx.count(120_000, 6_000_000), |rec, idx, rng| {
-        let (i, _) = gen_instant(rng, 2);
-        let off = gen_offset(rng);
         let dir = if idx % 2 == 0 { 1 } else { -1 };
+        // 1/8: offset 0 and no margin, so that the start can sit in the first / last second of the range and a
+        // Duration spanning (almost) the whole range is still representable
+        let (i, off) = if rng.chance(1, 8) {
+            let e = *rng.pick(&[0i128, 1, NS - 1, NS, D]) + if rng.chance(1, 2) { rng.range_i128(0, NS - 1) } else { 0 };
+            (if dir > 0 { MIN_INSTANT + e } else { MAX_INSTANT - e }, 0)
+        } else if rng.chance(1, 8) {
+            (gen_instant(rng, 0).0, 0)
+        } else {
+            (gen_instant(rng, 2).0, gen_offset(rng))
+        };
         let (d, stratum) = gen_duration(rng, i, dir);
         judge_duration(rec, i, off, dir, d, stratum, idx % 8 >= 6);
     }));
@@ -323,12 +333,13 @@ pub fn run(ctx: &Ctx) -> PropResult {
         let (d, _) = gen_duration(rng, day as i128 * D, dir);
         judge_date(rec, day, kind, c, d);
     }));
+    wls.push(Workload::cases("offset_local_twins", ctx.count(4_000, 150_000), |rec, _, rng| super::localzone::twin_case(rec, rng, "C04", super::walk::Family::Arithmetic)));
     wls.push(Workload::cases("api_walks", ctx.count(30_000, 1_500_000), |rec, _, rng| super::walk::walk(rec, rng, "C04", super::walk::Family::Arithmetic)));
     let out = run_workloads(ctx, wls);
     let mut meta = PropMeta::default();
-    meta.rule = "instant (8 strata, all eras, two-day margin) x offset (whole ±86399 s) x method (14 add_/sub_ methods round-robin) x count from {0..100, u32::MAX−0..2, 2^31±1, the counts at which count·unit crosses 2^63/2^64 ns ±2, the model-computed last representable count −1..+2, <2^20, uniform u32}; Durations {sub-day, multi-day, 2^32 days+ε, u64::MAX s, at the representability edge ±{1 ns,1 s,1 d}, wide}; DateTime ± Time (incl. amounts that land the result exactly on a midnight ± 1 ns); random API walks of 4–14 steps in which arithmetic steps are judged and set_*/clear/month/offset steps only move the state, every step observed through nanos_since, timestamp()+nano(), all getters and as_ymdhms; Date add/sub_days and ± Duration (whole days). Oracle: i128 instant arithmetic — representable ⇒ exact instant, same offset, day-nanoseconds < 24 h; not representable ⇒ the call must panic (any panic). Non-trivial = count > 100, BC start, era crossing or unrepresentable target (methods); every operator case. Distinct by input hash.".into();
+    meta.rule = "instant (10 strata incl. 2^k·unit from 0001-01-01 / 1970-01-01 and the seconds at the range ends, all eras, two-day margin when an offset is attached) x offset (whole ±86399 s) x method (14 add_/sub_ methods round-robin) x count from {0..100, u32::MAX−0..2, 2^31±1, the counts at which count·unit crosses 2^63/2^64 ns ±2, the one-day-wide band of counts below 2^31/2^32/2^63/2^64 ns ÷ unit (a time of day is added to the product afterwards), the model-computed last representable count −1..+2, <2^20, uniform u32}; Durations {sub-day, multi-day, 2^32 days+ε, u64::MAX s, at the representability edge ±{1 ns,1 s,1 d} (also from the first/last second of the range: a Duration spanning the whole range), magic magnitudes 2^k·unit ± jitter built with Duration::new, wide}; DateTime ± Time (incl. amounts that land the result exactly on a midnight ± 1 ns); random API walks of 4–14 steps in which arithmetic steps are judged and set_*/clear/month/offset steps only move the state, every step observed through nanos_since, timestamp()+nano(), all getters and as_ymdhms; Date add/sub_days and ± Duration (whole days). Oracle: i128 instant arithmetic — representable ⇒ exact instant, same offset, day-nanoseconds < 24 h; not representable ⇒ the call must panic (any panic). Non-trivial = count > 100, BC start, era crossing or unrepresentable target (methods); every operator case. Distinct by input hash.".into();
     meta.required_bins = vec![
-        "count/0..100", "count/u32::MAX-0..2", "count/2^31±1", "count/64-bit-wrap-threshold", "count/at-representability-edge", "count/uniform-u32",
+        "count/0..100", "count/u32::MAX-0..2", "count/2^31±1", "count/64-bit-wrap-threshold", "count/magic-band(2^k-ns/unit, one day wide)", "dur/magic-magnitude", "count/at-representability-edge", "count/uniform-u32",
         "add_hours/representable", "add_hours/unrepresentable", "sub_minutes/representable", "sub_nanos/unrepresentable", "add_days/unrepresentable", "sub_days/representable",
         "crosses-0001-01-01", "dur/2^32-days+eps", "dur/u64::MAX-s", "dur/at-representability-edge", "dur/to-a-midnight±1ns", "time-op/lands-exactly-on-midnight",
         "DateTime + Duration/representable", "DateTime - Duration/unrepresentable", "DateTime + Time/representable", "DateTime - Time/unrepresentable", "DateTime -= Time/representable",
